@@ -290,6 +290,7 @@ pub struct GenCfg {
   pub chain: Option<usize>,
   /// force a redirect cycle of this length
   pub cycle: Option<usize>,
+  pub allow_self_redirect: bool,
 }
 
 impl Default for GenCfg {
@@ -306,6 +307,7 @@ impl Default for GenCfg {
       remote: true,
       chain: None,
       cycle: None,
+      allow_self_redirect: false,
     }
   }
 }
@@ -385,7 +387,17 @@ pub fn gen_world(rng: &mut Rng, cfg: &GenCfg) -> World {
     let roll = rng.below(100);
     let mut acc = cfg.p_redirect;
     if roll < acc {
-      resp.push(Resp::Redirect(rng.below(total)));
+      let mut t = rng.below(total);
+      if t == i && !cfg.allow_self_redirect {
+        // a loader answering "redirect to the very specifier requested" leaves the entry pending
+        // forever (finding F13, explored by C03 in child processes); avoided elsewhere
+        t = (i + 1) % total;
+      }
+      if t == i {
+        resp.push(Resp::Missing);
+      } else {
+        resp.push(Resp::Redirect(t));
+      }
       continue;
     }
     acc += cfg.p_missing;
